@@ -134,9 +134,16 @@ func (mc *Metacontroller) Reconcile(ctx context.Context, request reconcile.Reque
 		},
 		parentCRD)
 	if err != nil {
+		if apierrors.IsNotFound(err) {
+			// The spec names a parent resource without CRD; an instance started
+			// from an earlier spec must not keep running with the old configuration.
+			mc.stopParentController(&cc)
+		}
 		return reconcile.Result{}, err
 	}
 	if !common.HasStatusSubresource(parentCRD, groupVersion.Version) {
+		// Same here: this configuration is ignored, so nothing may be left running for it.
+		mc.stopParentController(&cc)
 		mc.eventRecorder.Eventf(
 			&cc,
 			v1.EventTypeWarning,
@@ -153,6 +160,15 @@ func (mc *Metacontroller) Reconcile(ctx context.Context, request reconcile.Reque
 	}
 	reconcileErr := mc.reconcileCompositeController(&cc)
 	return reconcile.Result{}, reconcileErr
+}
+
+// stopParentController stops and forgets the hosted controller of cc, if there is one.
+func (mc *Metacontroller) stopParentController(cc *v1alpha1.CompositeController) {
+	if pc, ok := mc.parentControllers[cc.Name]; ok {
+		pc.Stop()
+		mc.eventRecorder.Eventf(cc, v1.EventTypeNormal, events.ReasonStopped, "Stopped controller: %s", cc.Name)
+		delete(mc.parentControllers, cc.Name)
+	}
 }
 
 func (mc *Metacontroller) reconcileCompositeController(cc *v1alpha1.CompositeController) error {
